@@ -461,3 +461,223 @@ fn c15_calc_witnesses() {{
     r, d = frag_record('frag_calc', 'src/operators.rs', 'fn ArithmeticOp::calc / `match &self {..}`',
                        t, g, ['left.to_float() -> l', 'right.to_float() -> r', '&self -> &op'], 'Variant boxing (to_float, from_float)')
     return dict(functions=[r], dropped=[d])
+
+
+# --------------------------------------------------------------------------------------------------
+# parse_filesize(): the unit ladder (C14)
+# --------------------------------------------------------------------------------------------------
+DOC_UNITS = [('k', '1024'), ('kib', '1024'), ('kb', '1000'),
+             ('m', '1024 * 1024'), ('mib', '1024 * 1024'), ('mb', '1000 * 1000'),
+             ('g', '1024 * 1024 * 1024'), ('gib', '1024 * 1024 * 1024'), ('gb', '1000 * 1000 * 1000'),
+             ('t', '1024 * 1024 * 1024 * 1024'), ('tib', '1024 * 1024 * 1024 * 1024'), ('tb', '1000 * 1000 * 1000 * 1000'),
+             ('b', '1')]
+
+
+def unit_filesize(inj, scratch):
+    frag_begin(inj)
+    s = src('src/util/mod.rs', scratch)
+    it = s.fn('parse_filesize')
+    body = s.text[it['open'] + 1:it['close']]
+    rung_rx = re.compile(
+        r'if\s+length\s*>\s*(\d+)\s*&&\s*string\.ends_with\("([^"]*)"\)\s*\{\s*'
+        r'return\s+match\s+&string\[\.\.\(length\s*-\s*(\d+)\)\]\.parse::<(\w+)>\(\)\s*\{\s*'
+        r'Ok\(size\)\s*=>\s*Some\((.*?)\),\s*_\s*=>\s*None,?\s*\};\s*\}', re.S)
+    rungs = [(m.start(), m.end(), int(m.group(1)), m.group(2), int(m.group(3)), m.group(4), m.group(5).strip())
+             for m in rung_rx.finditer(body)]
+    if not rungs:
+        raise AnchorLost('parse_filesize: no ladder rung of the expected shape found')
+    # everything between the prologue and the fall-through must be rungs (no unrecognised statement)
+    pro = re.match(r'\s*let\s+string\s*=\s*s\.to_string\(\)\.to_ascii_lowercase\(\)\.replace\(" ",\s*""\);\s*let\s+length\s*=\s*string\.len\(\);', body)
+    if not pro:
+        raise AnchorLost('parse_filesize: prologue (lower-casing, space removal, length) changed shape')
+    pos = pro.end()
+    for (a, b, *_rest) in rungs:
+        if body[pos:a].strip():
+            raise AnchorLost(f'parse_filesize: unrecognised statement between rungs: {body[pos:a].strip()[:80]!r}')
+        pos = b
+    tail = body[pos:].strip()
+    if re.sub(r'\s+', '', tail) != 'string.parse::<u64>().ok()':
+        raise AnchorLost(f'parse_filesize: fall-through changed shape: {tail[:80]!r}')
+    n = len(rungs)
+    out = ['pub mod filesize {', 'use super::*;',
+           f'pub const N_RUNGS: usize = {n};',
+           'pub const SUFFIX: [&str; N_RUNGS] = [' + ', '.join(f'"{r[3]}"' for r in rungs) + '];',
+           'pub const GUARD: [usize; N_RUNGS] = [' + ', '.join(str(r[2]) for r in rungs) + '];',
+           'pub const STRIP: [usize; N_RUNGS] = [' + ', '.join(str(r[4]) for r in rungs) + '];']
+    disp_f, disp_u = [], []
+    for i, r in enumerate(rungs):
+        ty, expr = r[5], r[6]
+        if ty == 'f64':
+            g = replace_exact(expr, '*size', 'size')
+            out.append(f'pub fn rung_{i}(size: f64) -> u64 {{ {g} }}')
+            disp_f.append(f'{i} => Some(rung_{i}(size)),')
+        elif ty == 'u64':
+            out.append(f'pub fn rung_{i}(size: u64) -> u64 {{ {expr} }}')
+            disp_u.append(f'{i} => Some(rung_{i}(size)),')
+        else:
+            raise AnchorLost(f'parse_filesize: rung {r[3]!r} parses an unexpected type {ty}')
+    out.append('pub fn rung_f64(i: usize, size: f64) -> Option<u64> { match i { ' + ' '.join(disp_f) + ' _ => None } }')
+    out.append('pub fn rung_u64(i: usize, size: u64) -> Option<u64> { match i { ' + ' '.join(disp_u) + ' _ => None } }')
+    out.append('''
+/// index of the rung that handles a (lower-cased) literal ending in `suf`: the FIRST rung whose suffix the
+/// literal's unit ends with - exactly the control flow of the ladder.
+pub fn first_matching_rung(unit: &str) -> Option<usize> {
+    let mut i = 0;
+    while i < N_RUNGS {
+        if unit.ends_with(SUFFIX[i]) { return Some(i); }
+        i += 1;
+    }
+    None
+}
+''')
+    for suf, mult in DOC_UNITS:
+        out.append(f'''
+#[kani::proof]
+#[kani::unwind({n + 2})]
+fn c14_table_{suf}() {{
+    // a literal "<digits>{suf}" reaches the first rung whose suffix it ends with
+    let i = first_matching_rung("{suf}");
+    kani::cover!(true);
+    assert!(i.is_some(), "OBL C14.ladder.table: documented unit `{suf}` has a rung");
+    let i = i.unwrap();
+    assert!(SUFFIX[i] == "{suf}", "OBL C14.ladder.table: unit `{suf}` is not shadowed by an earlier rung");
+    assert!(GUARD[i] == {len(suf)} && STRIP[i] == {len(suf)}, "OBL C14.ladder.table: `{suf}` strips exactly its own length");
+}}
+#[kani::proof]
+#[kani::unwind({n + 2})]
+fn c14_mult_{suf}() {{
+    let i = first_matching_rung("{suf}");
+    kani::assume(i.is_some());
+    let i = i.unwrap();
+    let n: u16 = kani::any();
+    let expected: u64 = (n as u64) * ({mult});
+    let got = match rung_f64(i, n as f64) {{ Some(v) => Some(v), None => rung_u64(i, n as u64) }};
+    kani::cover!(true);
+    assert!(got == Some(expected), "OBL C14.ladder.mult: <n>{suf} denotes n x {mult} bytes");
+}}''')
+    out.append('''
+#[kani::proof]
+fn canary_filesize_must_fail() {
+    assert!(N_RUNGS == 0, "CANARY must fail");
+}''')
+    out.append('}')
+    inj.new_file(FRAG_FILE, '\n'.join(out) + '\n')
+    orig = s.text_of(it)
+    r, d = frag_record('frag filesize ladder (SUFFIX/GUARD/STRIP tables, rung_i multipliers)', 'src/util/mod.rs',
+                       'fn parse_filesize / every `if length > N && string.ends_with("S") { return match &string[..(length - M)].parse::<T>() { Ok(size) => Some(E), _ => None } }` rung in order; prologue and fall-through checked by shape',
+                       orig, '\n'.join(out[:8 + n]), ['*size -> size (the parse result is a reference in the source)'],
+                       'to_ascii_lowercase / replace / slicing / str::parse (std, trusted)')
+    return dict(functions=[r], dropped=[d])
+
+
+# --------------------------------------------------------------------------------------------------
+# glob / LIKE -> regex translation tables (C12)
+# --------------------------------------------------------------------------------------------------
+REGEX_META = set('\\.+*?()|[]{}^$')          # metacharacters of regex syntax outside a character class
+PRINTABLE = [chr(c) for c in range(32, 127)]
+
+
+def _rust_str_value(lit):
+    """decode the inside of a Rust "..." literal (only the escapes that occur here)"""
+    out, i = [], 0
+    while i < len(lit):
+        if lit[i] == '\\':
+            nxt = lit[i + 1]
+            out.append({'\\': '\\', '"': '"', 'n': '\n', 't': '\t'}.get(nxt))
+            if out[-1] is None:
+                raise AnchorLost(f'unsupported escape \\{nxt} in pattern literal')
+            i += 2
+        else:
+            out.append(lit[i]); i += 1
+    return ''.join(out)
+
+
+def _rust_lit(s):
+    return '"' + s.replace('\\', '\\\\').replace('"', '\\"') + '"'
+
+
+def _table(s, fn_name, wild):
+    it = s.fn(fn_name)
+    body = s.text[it['open']:it['end']]
+    m = re.search(r'Regex::new\("((?:[^"\\]|\\.)*)"\)', body)
+    if not m:
+        raise AnchorLost(f'{fn_name}: Regex::new("...") literal not found')
+    pat = _rust_str_value(m.group(1))
+    if not (pat.startswith('(') and pat.endswith(')')):
+        raise AnchorLost(f'{fn_name}: capture pattern is not of the form (a|b|...)')
+    alts = []
+    inner, i, cur = pat[1:-1], 0, ''
+    while i < len(inner):
+        ch = inner[i]
+        if ch == '\\':
+            cur += inner[i + 1]; i += 2
+        elif ch == '|':
+            alts.append(cur); cur = ''; i += 1
+        elif ch in '()[]{}*+?.^$':
+            raise AnchorLost(f'{fn_name}: alternative uses an unescaped regex operator {ch!r}')
+        else:
+            cur += ch; i += 1
+    alts.append(cur)
+    if any(len(a) != 1 for a in alts):
+        raise AnchorLost(f'{fn_name}: an alternative is not a single (escaped) character: {alts}')
+    mm = s.find_one(r'match\s+c\.index\(0\)\s*\{', (it['open'], it['close']), what=f'{fn_name}: match c.index(0) {{')
+    o = mm.end() - 1
+    c = s.match_close(o)
+    arms = s.text[o:c + 1]
+    em = re.search(r'_\s*=>\s*error_exit\([^)]*\),?', arms)
+    if not em:
+        raise AnchorLost(f'{fn_name}: `_ => error_exit(..)` arm not found')
+    g = arms[:em.start()] + '_ => ERROR_EXIT,' + arms[em.end():]
+    return alts, dedent(arms), dedent(g), s.text_of(it)
+
+
+GLOB_PARTS = 8
+
+
+def _table_module(name, alts, g, wild):
+    lines = [f'pub fn {name}_captured(tok: &str) -> bool {{ matches!(tok, ' + ' | '.join(_rust_lit(a) for a in alts) + ') }',
+             f'pub fn frag_{name}_tbl(tok: &str) -> &\'static str {{ match tok {g} }}',
+             f'pub fn {name}_image<\'a>(tok: &\'a str) -> &\'a str {{ if {name}_captured(tok) {{ frag_{name}_tbl(tok) }} else {{ tok }} }}']
+    safe = lambda t: ''.join(c if (c.isalnum() or c in ' .*?+-_%') else f'<U+{ord(c):04X}>' for c in t)
+    per = (len(PRINTABLE) + GLOB_PARTS - 1) // GLOB_PARTS
+    for part in range(GLOB_PARTS):
+        lines += ['#[kani::proof]', f'fn c12_{name}_table_{part}() {{', '    kani::cover!(true);']
+        for ch in PRINTABLE[part * per:(part + 1) * per]:
+            if ch in wild:
+                exp = wild[ch]
+            elif ch in REGEX_META:
+                exp = '\\' + ch
+            else:
+                exp = ch
+            lines.append(f'    assert!({name}_image({_rust_lit(ch)}) == {_rust_lit(exp)}, "OBL C12.{name}.table: character {safe(ch)} must translate to {safe(exp)}");')
+        lines.append('}')
+    lines += ['#[kani::proof]', f'fn c12_{name}_no_error_arm() {{', '    kani::cover!(true);']
+    for a in alts:
+        lines.append(f'    assert!(frag_{name}_tbl({_rust_lit(a)}) != ERROR_EXIT, "OBL C12.{name}.table: captured token reaches the error_exit arm");')
+    lines.append('}')
+    return '\n'.join(lines)
+
+
+def unit_globtables(inj, scratch):
+    frag_begin(inj)
+    s = src('src/util/glob.rs', scratch)
+    recs, dropped = [], []
+    out = ['pub mod glob {', 'use super::*;', 'pub const ERROR_EXIT: &str = "\\u{0}ERROR_EXIT";']
+    for name, fn_name, wild in [('glob', 'convert_glob_to_pattern', {'*': '.*', '?': '.'}),
+                                ('like', 'convert_like_to_pattern', {'%': '.*', '_': '.'})]:
+        alts, arms, g, orig = _table(s, fn_name, wild)
+        out.append(_table_module(name, alts, g, wild))
+        r, d = frag_record(f'frag_{name}_tbl + {name}_captured', 'src/util/glob.rs',
+                           f'fn {fn_name} / alternation literal of Regex::new split at top-level `|`, and the `match c.index(0) {{..}}` arm table',
+                           orig, g, ['c.index(0) -> tok', '`_ => error_exit(..)` -> `_ => ERROR_EXIT` sentinel'],
+                           'the regex engine: replace_all is assumed to replace each leftmost match of the alternation and copy every other character; anchoring `^(?i)..$`')
+        recs.append(r); dropped.append(d)
+    out.append('''
+#[kani::proof]
+fn canary_glob_must_fail() {
+    assert!(glob_image("a") == "b", "CANARY must fail");
+}''')
+    out.append('}')
+    inj.new_file(FRAG_FILE, '\n'.join(out) + '\n')
+    return dict(functions=recs, dropped=dropped,
+                assumptions=['regex crate: Regex::replace_all with a single-character alternation replaces exactly the listed characters, left to right, and copies all others (T3)'])
